@@ -117,6 +117,9 @@ structure ChanRead where
   /-- LABELMAP segmentation: the read makes NO channel query (`channel_indices = None`, no temporary table, `data` unused); the
   stored label matrix is read as one channel and split into segments afterwards (`_get_pixels_by_seg_frame`, C02) -/
   labelmap : Bool := false
+  /-- the refusal of `bodyRefuses` is raised WHILE the rows of the frame query are being copied (overlapping segments, non-binary
+  fractions when combining) rather than by the validation of the options before the first row is fetched -/
+  midIteration : Bool := false
 
 /-- One segment-aware region read on an image whose connection holds the temporary-table state `st`: new state and result.
 Order as in `_iterate_indices_for_tiled_region`: uniqueness test and request normalisation (refusals that leave the state alone),
@@ -167,14 +170,86 @@ def historyStates {α} (z : α) (lut : List LutRow) (frames : List (Img α)) (ro
     let st' := (stepRead z lut frames rows cols th tw full allowMissing q st).1
     st' :: historyStates z lut frames rows cols th tw full allowMissing qs st'
 
+/-! ## Table locks
+
+While a cursor of a SELECT that joins the temporary table is open, SQLite refuses `DROP TABLE` on it ("database table is locked").
+The frame query of a read is such a cursor; it is open after the read iff the body raised while its rows were being copied, the
+iterator does not close it on exit (`Gen.tiledRegionCursorClosedOnExit`, T4t) and the caller holds on to the exception (whose
+traceback keeps the generator alive). -/
+
+/-- the connection: the temporary table and whether an abandoned frame query still locks it -/
+structure Conn where
+  table : TempState
+  locked : Bool
+  deriving DecidableEq
+
+/-- one statement on a possibly locked table: the two DROP statements fail on a table that exists and is locked -/
+def tempOpL (locked : Bool) (op : Nat × Bool) (data : ChanTable) (st : TempState) : TempState × Option ErrKind :=
+  if locked && st.isSome && (op.1 == 0 || op.1 == 1) then (st, some .other) else tempOp op data st
+
+def runOpsL (locked : Bool) : List (Nat × Bool) → ChanTable → TempState → TempState × Option ErrKind
+  | [], _, st => (st, none)
+  | op :: ops, data, st =>
+    match tempOpL locked op data st with
+    | (st', none) => runOpsL locked ops data st'
+    | (st', some e) => (st', some e)
+
+/-- `stepRead` on a connection with locks.  `closes`: the iterator closes the cursor of its frame query on every exit; `kept`: the
+caller keeps the exception of a refused read (for the rest of the history). -/
+def stepReadL {α} (z : α) (lut : List LutRow) (frames : List (Img α)) (rows cols th tw : Int) (full allowMissing : Bool)
+    (closes kept : Bool) (q : ChanRead) (c : Conn) : Conn × Except ErrKind (Int × Int × (Int → Img α)) :=
+  if q.labelmap then
+    (c, match readRegion z lut frames rows cols th tw none q.rs q.re q.cs q.ce q.asIdx full allowMissing with
+        | .error e => .error e
+        | .ok (h, w, out) => if q.bodyRefuses then .error .value else .ok (h, w, fun _ => out))
+  else
+  if !(uniquePos lut) then (c, .error .runtime) else
+  match stdRowColIndices q.rs q.re q.cs q.ce rows cols q.asIdx false with
+  | .error e => (c, .error e)
+  | .ok (r0, r1, c0, c1) =>
+    match expectedCount r0 r1 c0 c1 th tw with
+    | .error e => (c, .error e)
+    | .ok cnt =>
+      match runOpsL c.locked tempTableSetup q.data c.table with
+      | (st1, some e) => (⟨st1, c.locked⟩, .error e)
+      | (st1, none) =>
+        let res : Except ErrKind (Int × Int × (Int → Img α)) :=
+          if q.bodyRefuses then .error .value
+          else stackedBody z lut frames th tw st1 (q.data.length : Int) q.nch r0 r1 c0 c1 cnt full allowMissing
+        match res with
+        | .error e =>
+          -- is the cursor of the frame query still open?  (an error of the modelled body itself arises while rows are copied)
+          let open_ := (q.midIteration || !q.bodyRefuses) && !closes
+          ((⟨if tempTableCleanupOnError then (runOpsL open_ tempTableCleanup q.data st1).1 else st1, open_ && kept⟩ : Conn), .error e)
+        | .ok v =>
+          match runOpsL false tempTableCleanup q.data st1 with
+          | (st2, some e) => (⟨st2, false⟩, .error e)
+          | (st2, none) => (⟨st2, false⟩, .ok v)
+
+def runHistoryL {α} (z : α) (lut : List LutRow) (frames : List (Img α)) (rows cols th tw : Int) (full allowMissing : Bool)
+    (closes kept : Bool) : List ChanRead → Conn → List (Except ErrKind (Int × Int × (Int → Img α))) × Conn
+  | [], c => ([], c)
+  | q :: qs, c =>
+    let (c', res) := stepReadL z lut frames rows cols th tw full allowMissing closes kept q c
+    let (rest, cEnd) := runHistoryL z lut frames rows cols th tw full allowMissing closes kept qs c'
+    (res :: rest, cEnd)
+
+/-- the table states after every step, with locks -/
+def historyStatesL {α} (z : α) (lut : List LutRow) (frames : List (Img α)) (rows cols th tw : Int) (full allowMissing : Bool)
+    (closes kept : Bool) : List ChanRead → Conn → List TempState
+  | [], _ => []
+  | q :: qs, c =>
+    let c' := (stepReadL z lut frames rows cols th tw full allowMissing closes kept q c).1
+    c'.table :: historyStatesL z lut frames rows cols th tw full allowMissing closes kept qs c'
+
 /-- the request `get_total_pixel_matrix(segment_numbers=segs, combine_segments=False)` makes: channel `k` of the output is
 segment `segs[k]` -/
 def stackedRequest (segs : List Int) (rs re cs ce : Option Int) (asIdx : Bool) : ChanRead :=
-  ⟨(segs.zipIdx).map (fun (p : Int × Nat) => ((p.2 : Int), p.1)), (segs.length : Int), rs, re, cs, ce, asIdx, false, false⟩
+  ⟨(segs.zipIdx).map (fun (p : Int × Nat) => ((p.2 : Int), p.1)), (segs.length : Int), rs, re, cs, ce, asIdx, false, false, false⟩
 
 /-- a read of a LABELMAP segmentation: no channel query -/
 def labelmapRequest (rs re cs ce : Option Int) (asIdx : Bool) : ChanRead :=
-  ⟨[], 1, rs, re, cs, ce, asIdx, false, true⟩
+  ⟨[], 1, rs, re, cs, ce, asIdx, false, true, false⟩
 
 /-- frames and frame table of `Segmentation(tile_pixel_array=True)` as a reader sees them (`tileThenRead` up to the read):
 tile offsets, which tiles are kept, the TILED_FULL / `omit_empty_frames` refusal, the tiling loop, explicit or implied table -/
